@@ -83,6 +83,10 @@ type History struct {
 	SWRTimeoutNs int64  `json:"swr_timeout_ns"`
 	Logger       string `json:"logger"`               // discard | debug
 	Concurrent   bool   `json:"concurrent,omitempty"` // requests with equal at_ns are issued concurrently
+	// TZ: IANA name of the zone the process is in while this history runs ("" = a fixed UTC+9 zone). HTTP-dates are
+	// GMT whatever the zone of the cache's process is, and a time library resolves the "GMT" of the obsolete rfc850
+	// layout against the local zone's abbreviation table
+	TZ string `json:"tz,omitempty"`
 	Ops          []Op   `json:"ops"`
 }
 
